@@ -46,7 +46,7 @@ def Under (d q : CPath) : Prop := d <+: q
 /-! well-formed worlds (what the kernel maintains): names are names, no path twice, parents are directories -/
 
 /-- every component of every stored path is a proper name -/
-def NamesOk (fs : Fs) : Prop := ∀ x ∈ fs.ents, ∀ c ∈ x.1, IsName c
+def NamesOk (fs : Fs) : Prop := ∀ x ∈ fs.ents, ∀ c ∈ x.1, KName c
 
 /-- no canonical path is stored twice -/
 def NoDupKeys (fs : Fs) : Prop := (fs.ents.map (·.1)).Nodup
@@ -60,7 +60,7 @@ structure WF (fs : Fs) : Prop where
   nodup : NoDupKeys fs
   parents : ParentsOk fs
 
-instance (c : Bytes) : Decidable (IsName c) := by unfold IsName; exact inferInstance
+instance (c : Bytes) : Decidable (KName c) := by unfold KName; exact inferInstance
 instance (fs : Fs) : Decidable (NamesOk fs) := by unfold NamesOk; exact inferInstance
 instance (fs : Fs) : Decidable (NoDupKeys fs) := by unfold NoDupKeys; exact inferInstance
 instance (fs : Fs) : Decidable (ParentsOk fs) := by unfold ParentsOk; exact inferInstance
